@@ -91,6 +91,42 @@ def run(ctx):  # noqa: C901, PLR0912, PLR0915
                    f'{fi.name}: no table mutator, no in-place mutation of resident objects', fi=fi,
                    witness={'resident_locals': sorted(res.tainted)})
 
+    # table methods that the API calls before the commit must be read-only on the table
+    api_table_methods = set()
+    for fi in api_funcs:
+        res = Resident(fi.node)
+        for c in calls_in(fi.node):
+            if isinstance(c.func, ast.Attribute) and res.is_table(c.func.value) and \
+                    unparse(c.func.value).rsplit('.', 1)[-1] in ('descriptions', 'states', 'context_states'):
+                api_table_methods.add(call_name(c))
+    ctx.floor('C03.R1', len(api_table_methods), 1, 'table methods called by the transaction API before commit')
+    mutating = {'pop', 'popitem', 'clear', 'update', 'append', 'extend', 'remove', 'add', 'setdefault', 'insert',
+                'discard', 'appendleft'}
+    for tq in sorted(repo.subclasses('sdc11073.multikey.MultiKeyLookup')):
+        for m in sorted(api_table_methods):
+            tfi = repo.resolve_method(tq, m)
+            if tfi is None:
+                continue
+            bad = []
+            for n in walk_no_nested(tfi.node):
+                if isinstance(n, ast.Call) and isinstance(n.func, ast.Attribute) and n.func.attr in mutating and \
+                        (dotted(n.func.value) or '').startswith('self.'):
+                    bad.append(n)
+                tg = n.targets if isinstance(n, ast.Assign) else ([n.target] if isinstance(n, ast.AugAssign) else [])
+                for t in tg:
+                    base = t.value if isinstance(t, (ast.Subscript, ast.Attribute)) else None
+                    if base is not None and (dotted(base) or '').startswith('self'):
+                        bad.append(n)
+                if isinstance(n, ast.Delete) and any((dotted(getattr(t, 'value', None)) or '').startswith('self')
+                                                     for t in n.targets):
+                    bad.append(n)
+            ctx.ob('C03.R1', f'{tq.rsplit(".", 1)[1]}.{m} read-only', not bad,
+                   f'{tq.rsplit(".", 1)[1]}.{m} (called by the transaction API before the commit) does not change the '
+                   f'table' if not bad else
+                   f'{tq.rsplit(".", 1)[1]}.{m} is called while a transaction is being prepared and changes table state '
+                   f'({norm_stmt(bad[0])}): an aborted transaction leaves that change behind', fi=tfi,
+                   node=bad[0] if bad else None)
+
     # ------------------------------------------------------------------ R2
     tm = repo.func(f'{PM}._transaction_manager')
     g = cfg_of(tm)
